@@ -80,7 +80,7 @@ class C11(Prop):
                    'values are observed through datastream() (raw), the typing of aggregate fields in the schema is C02\'s business']
     REAL_VS_STUB = {'real': ['dataflows join', 'kvfile + sqlite'], 'stub': ['KVFile twin: cache-size knob and operation counter only']}
     PROBES = ['mode-inner', 'mode-half-outer', 'mode-full-outer', 'dedup-mode', 'null-key', 'duplicate-source-key', 'unmatched-target-row', 'unmatched-source-key', 'key-format-string',
-              'key-row-number', 'wildcard-mapping', 'maps-onto-existing-target-column', 'falsy-first-value', 'spill-path (cache smaller than keys)', 'big-index (>10240 keys)', 'source-kept', 'kept-source-edited-later'] + ['agg:' + a for a in NUM_AGGS + ANY_AGGS]
+              'key-row-number', 'wildcard-mapping', 'maps-onto-existing-target-column', 'falsy-first-value', 'spill-path (cache smaller than keys)', 'big-index (>10240 keys)', 'source-kept', 'kept-source-edited-later', 'equal-numbers-rendering-differently-as-keys'] + ['agg:' + a for a in NUM_AGGS + ANY_AGGS]
     TIERS = {'quick': dict(runs=3000, wall=100, run_wall=300),
              'thorough': dict(runs=40000, wall=1700, run_wall=600)}
     SHRINK_FROZEN = ('fields_',)
@@ -89,8 +89,11 @@ class C11(Prop):
         big = tier == 'thorough' and rng.random() < 0.01
         ns = rng.choice([0, 1, 2, 3, 5, 8, 12]) if not big else 11000
         nt = rng.choice([0, 1, 2, 3, 5, 8, 12])
-        keyvals = rng.choice([[1, 2, 3], ['a', 'b', 'ab'], [0, 1], ['x'], [1, 2, 3, 4, 5, 6, 7, 8]])
-        ktype = 'integer' if isinstance(keyvals[0], int) else 'string'
+        import decimal
+        keyvals = rng.choice([[1, 2, 3], ['a', 'b', 'ab'], [0, 1], ['x'], [1, 2, 3, 4, 5, 6, 7, 8],
+                              # numbers that compare equal but render differently are different keys ("render the same key")
+                              [T.enc(decimal.Decimal(x)) for x in ('1', '1.0', '1.00', '2', '2.0')]])
+        ktype = 'integer' if isinstance(keyvals[0], int) else 'number' if isinstance(keyvals[0], dict) else 'string'
 
         def table(name, n, extra, idbase):
             fields = [{'name': '_id', 'type': 'integer'}, {'name': 'k', 'type': ktype}, {'name': 'k2', 'type': 'string'}] + extra
@@ -274,6 +277,9 @@ class C11(Prop):
         sk = [M.render(spec['source_key'], r, n) for n, r in enumerate(src_rows, 1)]
         if len(set(sk)) < len(sk):
             ctx.probe('duplicate-source-key')
+        kv = [r.get('k') for r in src_rows + tgt_rows if r.get('k') is not None]
+        if len(set(kv)) < len(set(str(x) for x in kv)):
+            ctx.probe('equal-numbers-rendering-differently-as-keys')
         if len(set(sk)) > 10240:
             ctx.probe('big-index (>10240 keys)')
         if isinstance(spec['source_key'], str):
